@@ -2243,7 +2243,10 @@ class unyt_array(np.ndarray):
          [8. 8.]] km*s**2
         """
         res_units = self.units * getattr(b, "units", NULL_UNIT)
-        ret = self.view(np.ndarray).dot(np.asarray(b), out=out) * res_units
+        # write into a plain view of out: multiplying the returned (unit-carrying)
+        # buffer by res_units would apply the units twice
+        out_view = None if out is None else np.asarray(out)
+        ret = self.view(np.ndarray).dot(np.asarray(b), out=out_view) * res_units
         if isinstance(out, unyt_array):
             out.units = res_units
         return ret
